@@ -59,7 +59,7 @@ BODY = ("From CB Require Import SeqlockInv GenCyc SeqlockRA SeqlockMono SeqlockF
         "Print Assumptions C03_monotone_for_the_running_code.\nPrint Assumptions C03_fresh_for_the_running_code.\n")
 
 
-def sequence_part(res):
+def sequence_part(res, pid="C03"):
     """without the shim: sequences of publications in which a record differs from the one before in exactly one
     field (the status only, the bound only, the as-of running backwards, ...), in none, or in all, read after
     each publication by a client that has been attached all along and by one that attaches afresh: the writer
@@ -89,12 +89,17 @@ def sequence_part(res):
             seq.append(tuple(cur))                           # (-2: the same record again)
         seqs.append(seq)
         lines.append("pubs %d %s" % (len(seq), " ".join(" ".join(map(str, r)) for r in seq)))
-    outs = c.run_lines(c.build_harness("debug")[0], lines) + c.run_lines(c.build_harness("release")[0], lines)
+    outs = c.run_lines_hang_aware(c.build_harness("debug")[0], lines, "hang") + c.run_lines_hang_aware(c.build_harness("release")[0], lines, "hang")
     bad = []
     for seq, ln, o in zip(seqs + seqs, lines + lines, outs):
         res.evaluations += 1
         res.count("gen:publication sequences with one field changed (no shim)")
         res.nontriv(ln)
+        if o in ("hang", "crash"):
+            bad.append({"schedule": ln, "impl": o, "why": ["publishing this sequence and reading it back did not return within 5 s (%s): a client call (or the writer) never completes" % o]})
+            continue
+        if pid == "C18":
+            continue            # C18 asks only that every call returns
         t = o.split()
         for k, r in enumerate(seq):
             want = ":".join(map(str, r))
@@ -107,8 +112,9 @@ def sequence_part(res):
                 break
     res.oblige("after every publication of a sequence both an attached and a fresh client obtain it (%d sequences, shim-free)" % len(outs), not bad)
     if bad:
-        res.violation({"property": "C03", "kind": "history", "case": bad[0], "others": [b["schedule"][:200] for b in bad[1:4]],
-                       "predicate": "if no update is in flight while a call executes, the call returns the most recently completed publication",
+        res.violation({"property": pid, "kind": "history", "case": bad[0], "others": [b["schedule"][:200] for b in bad[1:4]],
+                       "predicate": "if no update is in flight while a call executes, the call returns the most recently completed publication" if pid == "C03"
+                                    else "a client call completes after a bounded amount of work whatever the daemon publishes",
                        "how_to_replay": "./check C03"})
 
 
